@@ -109,7 +109,7 @@ def specs(draw, tier):
     spec["num_processes"] = 1
     # an earlier analysis in the same process with other options (a quick preview, other intensity options, another image)
     # must not influence the judged one
-    spec["warmup"] = draw(st.sampled_from([None, None, None, "loose-tolerance", "tight-tolerance+params", "other-levels", "other-image"]))
+    spec["warmup"] = draw(st.sampled_from([None, None, None, "loose-tolerance", "tight-tolerance+params", "other-levels", "other-image", "same-options-dict", "same-options-dict"]))
     return spec
 
 
@@ -189,6 +189,10 @@ class C05(Property):
                     locate_droplets(field, threshold=thr, refine=True, refine_args={**rargs, "tolerance": 1e-2})
                 elif warm == "tight-tolerance+params":
                     locate_droplets(field, threshold=thr, refine=True, refine_args={**rargs, "tolerance": 1e-12, "least_squares_params": {"max_nfev": 3}})
+                elif warm == "same-options-dict":
+                    # one options dict kept by the caller and handed to every analysis (as DropletTracker does for every frame): it
+                    # first serves the analysis of the mirrored image, then - the very same object - the judged analysis
+                    locate_droplets(ScalarField(grid, np.asarray(field.data)[tuple(slice(None, None, -1) for _ in range(grid.num_axes))].copy()), threshold=thr, refine=True, refine_args=rargs)
                 elif warm == "other-levels":
                     locate_droplets(field, threshold=thr, refine=True, refine_args={"vmin": b - 0.3 * a, "vmax": b + 1.4 * a, "adjust_values": True})
                 else:
